@@ -284,7 +284,10 @@ impl Sink {
             .map(|o| o.iter().filter(|(_, v)| v.as_bool() == Some(true)).map(|(k, _)| k.clone()).collect())
             .unwrap_or_default();
         flags.sort();
-        let key = format!("{class}|{key}|{}|{}|{}", c.kind, c.must_accept, flags.join(","));
+        // a family may name a finer group (e.g. the kind of token) so that
+        // different constructs are never merged into one report
+        let group = c.tags["group"].as_str().unwrap_or("");
+        let key = format!("{class}|{key}|{}|{}|{}|{group}", c.kind, c.must_accept, flags.join(","));
         if let Some((_, p)) = self.groups.iter_mut().find(|(k, _)| *k == key) {
             p.count += 1;
             p.last = c.spelling.clone();
